@@ -11,7 +11,7 @@ CONSTANTS
   EnvShift = 0
   SkipLastBond = FALSE
   DropInnerTag = TRUE
-  AliasExcused = TRUE
+  StoreByRef = FALSE
   Emit = FALSE
 INVARIANT WholeCovered
 INVARIANT CapRespected
